@@ -14,7 +14,7 @@ for d in sorted(glob.glob('/verif/seeded/*/meta.json')):
     rows.append("| %s | %s | %s | %s |"%(n, what, '; '.join('`%s`'%o for o in ob), 'yes' if not first or first=='yes' else 'only after strengthening (first run: missed)'))
 hdr="| seed | what it breaks | obligations that fail (first two) | detected |\n|------|----------------|-----------------------------------|----------|\n"
 i=s.index(hdr)+len(hdr)
-j=s.index("\n\nFour seeds were missed", i)
+j=s.index("\n\nSeven seeds of the first round were missed", i)
 s=s[:i]+"\n".join(rows)+s[j:]
 open(p,'w').write(s)
 print(len(rows),"rows")
